@@ -33,6 +33,7 @@ from semantiva.configurations.schema import ExecutionConfig, TraceConfig
 from semantiva.exceptions.pipeline_exceptions import (
     PipelineConfigurationError,
     RunSpaceMaxRunsExceededError,
+    format_run_count,
 )
 from semantiva.execution.component_registry import ExecutionComponentRegistry
 from semantiva.execution.run_space import expand_run_space
@@ -711,11 +712,11 @@ def _run(args: argparse.Namespace) -> int:
     except RunSpaceMaxRunsExceededError as exc:
         print(
             f"Error: {exc.message}\n\n"
-            f"The run space configuration would generate {exc.actual_runs:,} runs, "
-            f"which exceeds the safety limit of {exc.max_runs:,}.\n\n"
+            f"The run space configuration would generate {format_run_count(exc.actual_runs)} runs, "
+            f"which exceeds the safety limit of {format_run_count(exc.max_runs)}.\n\n"
             f"To resolve this, you can:\n"
             f"  1. Reduce the size of your run space by using fewer values or 'zip' mode\n"
-            f"  2. Increase the max runs with: --run-space-max-runs {exc.actual_runs}\n"
+            f"  2. Increase the max runs with: --run-space-max-runs {format_run_count(exc.actual_runs, grouped=False)}\n"
             f"  3. Preview the run space with: --run-space-dry-run\n\n"
             f"Note: Large run spaces may consume significant computational resources.",
             file=sys.stderr,
